@@ -92,6 +92,10 @@ func (ucr *UnsignedChunkReader) Read(p []byte) (int, error) {
 		// Read and cache the payload
 		_, err = io.ReadFull(rdr, payload)
 		if err != nil {
+			if err == io.EOF {
+				// a stream that ends where chunk data is expected is truncated
+				return 0, io.ErrUnexpectedEOF
+			}
 			return 0, err
 		}
 
@@ -116,6 +120,15 @@ func (ucr *UnsignedChunkReader) Read(p []byte) (int, error) {
 
 	// Read and validate trailers
 	if err := ucr.readTrailer(); err != nil {
+		return 0, err
+	}
+
+	// Nothing may follow the trailer: reading up to the end of the body also
+	// lets the readers underneath (e.g. the signature check) see the EOF.
+	if _, err := ucr.reader.ReadByte(); err != io.EOF {
+		if err == nil {
+			return 0, errMalformedEncoding
+		}
 		return 0, err
 	}
 
